@@ -164,6 +164,73 @@ pub mod csv {
         }
     }
 
+    /// Crash injection for the verification harness (cargo feature `verif_hooks` only;
+    /// nothing of this is compiled otherwise). While a rates file is written the process
+    /// aborts once `ACB_VERIF_CRASH_AFTER_BYTES` bytes have reached the file, or at the
+    /// step of the write procedure named by `ACB_VERIF_CRASH_AT` (after_create,
+    /// after_flush, after_sync, before_rename, after_rename). Without these environment
+    /// variables the hooks do nothing.
+    #[cfg(feature = "verif_hooks")]
+    mod verif_hooks {
+        use std::{fs::File, io::Write};
+
+        pub fn crash_point(name: &str) {
+            if let Ok(v) = std::env::var("ACB_VERIF_CRASH_AT") {
+                if v == name {
+                    std::process::abort();
+                }
+            }
+        }
+
+        /// Crash point reached when the enclosing function returns.
+        pub struct CrashOnDrop(pub &'static str);
+
+        impl Drop for CrashOnDrop {
+            fn drop(&mut self) {
+                crash_point(self.0);
+            }
+        }
+
+        pub struct CrashingWriter {
+            inner: File,
+            written: u64,
+            limit: Option<u64>,
+        }
+
+        impl CrashingWriter {
+            pub fn new(inner: File) -> CrashingWriter {
+                let limit = std::env::var("ACB_VERIF_CRASH_AFTER_BYTES")
+                    .ok()
+                    .and_then(|v| v.parse::<u64>().ok());
+                CrashingWriter { inner, written: 0, limit }
+            }
+
+            pub fn sync_all(&self) -> std::io::Result<()> {
+                self.inner.sync_all()
+            }
+        }
+
+        impl Write for CrashingWriter {
+            fn write(&mut self, buf: &[u8]) -> std::io::Result<usize> {
+                if let Some(limit) = self.limit {
+                    let room = limit.saturating_sub(self.written);
+                    if (buf.len() as u64) >= room {
+                        let _ = self.inner.write_all(&buf[..room as usize]);
+                        let _ = self.inner.flush();
+                        std::process::abort();
+                    }
+                }
+                let n = self.inner.write(buf)?;
+                self.written += n as u64;
+                Ok(n)
+            }
+
+            fn flush(&mut self) -> std::io::Result<()> {
+                self.inner.flush()
+            }
+        }
+    }
+
     fn rates_csv_file_path(dir_path: &std::path::Path, year: u32) -> PathBuf {
         let fname_only = format!("rates-{}.csv", year);
         dir_path.join(fname_only)
@@ -220,6 +287,10 @@ pub mod csv {
             // complete one, even if we are interrupted. (A file cut off in the middle
             // of a row could otherwise still parse, with a wrong, shortened rate.)
             let file = open_rates_csv_tmp_file_write(&self.dir_path, year)?;
+            #[cfg(feature = "verif_hooks")]
+            let file = verif_hooks::CrashingWriter::new(file);
+            #[cfg(feature = "verif_hooks")]
+            verif_hooks::crash_point("after_create");
 
             // CSV file of date,exchange_rate
 
@@ -242,11 +313,19 @@ pub mod csv {
                 );
             }
             r?;
+            #[cfg(feature = "verif_hooks")]
+            verif_hooks::crash_point("after_flush");
 
             let file = csv_w.into_inner().map_err(|e| e.to_string())?;
             file.sync_all().map_err(|e| e.to_string())?;
             drop(file);
+            #[cfg(feature = "verif_hooks")]
+            verif_hooks::crash_point("after_sync");
 
+            #[cfg(feature = "verif_hooks")]
+            verif_hooks::crash_point("before_rename");
+            #[cfg(feature = "verif_hooks")]
+            let _crash_after_rename = verif_hooks::CrashOnDrop("after_rename");
             std::fs::rename(
                 rates_csv_tmp_file_path(&self.dir_path, year),
                 rates_csv_file_path(&self.dir_path, year),
